@@ -199,9 +199,11 @@ def run(facts, rep):
         rets = [p.ret for p in paths_of(isint) if p.end == 'return']
         if rets and all(is_call(r, 'One::is_one') and strip(r[2][0]) == A(1, 'denom') for r in rets):
             rep.ok('E1.R1-shortcut-paths', 'Ratio::is_int|tests denom.is_one()', 'is_one(self.denom)')
-        else:
+        elif rets and all(r[0] == 'call' and r[1].split('::')[-1] in ('is_one', 'is_unit', 'is_zero', 'is_pm_one') and len(r[2]) == 1 and strip(r[2][0]) in (A(1, 'denom'), A(1, 'numer')) for r in rets):
             rep.violation('E1.R1-shortcut-paths', 'Ratio::is_int|tests denom.is_one()',
                           'Ratio::is_int no longer is `self.denom.is_one()`; the product shortcuts rely on it', where=isint.where())
+        else:
+            rep.indet('E1 Ratio: is_int outside the recognised fragment: %s' % [sk(r)[:60] for r in rets][:2])
     subjects = [b for b in facts.bodies.values() if (b.defp.startswith(MOD + '::') or (b.impl and b.impl.get('self_adt') == ADT))
                 and b.kind != 'Closure']
     clean_fns = {b.defp for b in subjects}
